@@ -15,4 +15,4 @@ INVARIANTS
   C13_CleanupIffFailedAndClean C13_KeptIsPrefix
 PROPERTIES
   C08_RetransmitOnlyOnTimeoutOrGap C08_ResumeAtKPlus1 C08_StaleAckInert
-  C07_EndsOnError C07_GivesUp C02_AckOnlyInSeq
+  C07_EndsOnError C07_GivesUp C02_AckOnlyInSeq C04_BudgetIsForConsecutiveFailures
